@@ -10,10 +10,14 @@
 (*   wpull/namevalue.py              field parsing (first value wins, obs-fold joined)             *)
 (*   wpull/warc/recorder.py          HTTPWARCRecorderSession (one record at end_request /          *)
 (*                                   end_response, block = the notified data)                      *)
-(* reading from a connection = `rest` (octets sent and not yet consumed) + *)
-(* `eof`.  ReadLine returns through the first LF (or to EOF); Read(n)      *)
-(* returns ANY k octets with 1 <= k <= min(n, |rest|): this k is "all      *)
-(* segmentations of the byte stream".  One action = one read + what the    *)
+(* reading from a connection = `buf` (octets in the client's StreamReader   *)
+(* buffer) + `net` (octets sent, still in flight) + `eof`.  A read that    *)
+(* finds what it needs in `buf` takes it from there; otherwise ANY number  *)
+(* k >= 1 of in-flight octets arrives first (ReadLine: any amount that     *)
+(* brings the LF in; Read(n): one piece of any size k, of which min(n, k)  *)
+(* are returned).  These k are "all segmentations of the byte stream"      *)
+(* (an eager arrival is the same as a larger piece at the next read).      *)
+(* One action = one read + what the    *)
 (* code does with the data up to the next read, including the              *)
 (* data_event_dispatcher notification (-> recorded) and file.write         *)
 (* (-> delivered).  NX exchanges in lockstep: the server sends message x   *)
@@ -21,7 +25,7 @@
 (*                                                                         *)
 (* Alphabet: real octet values for everything after the header block       *)
 (* (CR 13, LF 10, hex digits, ';' 59, ':' 58, body octets); a header line  *)
-(* is ONE token >= 1000 (Tok(kind, val, style)) followed by its real line  *)
+(* is ONE token >= 100000 (Tok(kind, val, style)) followed by its real line  *)
 (* ending, so header spelling variants are distinct tokens.                *)
 (*                                                                         *)
 (* The model describes the code AS IT IS; the four Fix* constants switch   *)
@@ -42,10 +46,10 @@ CR == 13
 LF == 10
 
 \* ---------------------------------------------------------------- header-line tokens
-Tok(kind, val, style) == 1000 + kind * 1000 + val * 10 + style
-IsTok(t)    == t >= 2000
-TokKind(t)  == (t - 1000) \div 1000
-TokVal(t)   == ((t - 1000) % 1000) \div 10
+Tok(kind, val, style) == 1000 + kind * 100000 + val * 10 + style
+IsTok(t)    == t >= 100000
+TokKind(t)  == (t - 1000) \div 100000
+TokVal(t)   == ((t - 1000) % 100000) \div 10
 TokStyle(t) == (t - 1000) % 10
 KStatus == 1   KTE == 2   KCL == 3   KConn == 4   KPad == 5
 \* styles: 0 "Name: value"  1 "Name:value"  2 "Name:" (value on the next, folded, line)  3 " value" (continuation)
@@ -56,8 +60,8 @@ StatusVal(s, ver) == StatusIdx(s) * 2 + (IF ver = "1.0" THEN 1 ELSE 0)
 TEVal(te) == CASE te = "chunked" -> 1 [] te = "Chunked" -> 2 [] te = "gzip, chunked" -> 3 [] OTHER -> 0
 TECodings(te) == CASE te = "chunked" -> <<"chunked">> [] te = "Chunked" -> <<"chunked">>
                    [] te = "gzip, chunked" -> <<"gzip", "chunked">> [] OTHER -> <<>>
-CLNonNum == 98
-CLNeg == 99
+CLNonNum == 9998
+CLNeg == 9999
 ConnVal(c) == CASE c = "close" -> 1 [] c = "keep-alive" -> 2 [] OTHER -> 0
 
 \* ---------------------------------------------------------------- the server: Bytes(msg)
@@ -124,92 +128,111 @@ Choices ==
   { b \in [method : Methods, status : Statuses, interim : Interims, ver : VerSet, te : TESet, cl : CLSet,
            conn : ConnSet, fmt : FmtSet, body : BodyCodes, split : SplitSet, ext : ExtSet, tr : TrailerSet] :
       /\ (b.cl = "smaller" => Len(BodyOf(b.body)) >= 1)
-      /\ (b.te = "none" => (b.split = 1 /\ ~b.ext /\ ~b.tr))           \* chunk shape only matters when chunked
-      /\ (b.split = 2 => Len(BodyOf(b.body)) >= 2)
+      \* the chunk shape only matters when chunked: one representative otherwise
+      /\ (b.te = "none" => (b.split = (CHOOSE s \in SplitSet : TRUE) /\ b.ext = (CHOOSE e \in ExtSet : TRUE)
+                             /\ b.tr = (CHOOSE t \in TrailerSet : TRUE)))
       /\ (b.ver = "1.0" => b.te = "none") }
 
 \* the sender must close to end a message that has neither chunked framing nor a (sufficient) length
 MustClose(b) == ~SenderBodyless(b) /\ b.te = "none" /\ b.cl \in {"none", "larger", "nonnum", "neg"}
+TruncChoices(b) == {NoTrunc} \cup (IF TruncMode = "all" THEN 0..(Len(Full(Mk(b, NoTrunc, FALSE))) - 1) ELSE {})
+CloseChoices(b, t) == IF t # NoTrunc \/ MustClose(b) THEN {TRUE} ELSE SCloseSet
 
-MsgSet ==
-  UNION { LET full == Full(Mk(b, NoTrunc, FALSE)) IN
-          { Mk(b, NoTrunc, sc) : sc \in (IF MustClose(b) THEN {TRUE} ELSE SCloseSet) }
-          \cup (IF TruncMode = "all" THEN { Mk(b, t, TRUE) : t \in 0..(Len(full) - 1) } ELSE {})
-        : b \in Choices }
-
-ReqTok(x) == <<7000 + x>>
+ReqTok(x) == <<900000 + x>>
 
 -----------------------------------------------------------------------------
 VARIABLES
   x,        \* current exchange
   pc,       \* program counter of the client
-  rest,     \* octets sent by the server on the current connection, not yet consumed
-  eof,      \* the server has closed its side
+  buf,      \* octets received by the client's StreamReader and not yet consumed
+  net,      \* octets sent by the server on the current connection, still in flight
+  eof,      \* the server has closed its side (seen by the client once buf and net are empty)
   copen,    \* the client holds an open connection
   hdr,      \* first tokens of the header lines read so far
   bleft,    \* bytes_left (length / chunk)
   tr,       \* trailer data read so far
   err       \* error class being raised
 
-impl == <<x, pc, rest, eof, copen, hdr, bleft, tr, err>>
-vars == <<msgs, impl, obsvars, warcDone>>
+impl == <<x, pc, buf, net, eof, copen, hdr, bleft, tr, err>>
+vars == <<msgs, ref, impl, obsvars, warcDone>>
 
 LFIndex(s) == LET S == {i \in 1..Len(s) : s[i] = LF} IN
               IF S = {} THEN 0 ELSE CHOOSE i \in S : \A j \in S : i <= j
 
 InitWith(ms) ==
   /\ msgs = ms
-  /\ x = 1 /\ pc = "start" /\ rest = <<>> /\ eof = FALSE /\ copen = FALSE
+  /\ ref = [i \in XS |-> RefRec(ms[i])]
+  /\ x = 1 /\ pc = "start" /\ buf = <<>> /\ net = <<>> /\ eof = FALSE /\ copen = FALSE
   /\ hdr = <<>> /\ bleft = 0 /\ tr = <<>> /\ err = "none"
   /\ delivered = [i \in XS |-> <<>>] /\ recorded = [i \in XS |-> <<>>]
   /\ reqRecorded = [i \in XS |-> <<>>] /\ reqSent = [i \in XS |-> <<>>]
   /\ outcome = [i \in XS |-> "none"] /\ connClosed = [i \in XS |-> FALSE]
-  /\ leftover = [i \in XS |-> 0] /\ stalled = [i \in XS |-> FALSE]
+  /\ leftover = [i \in XS |-> 0] /\ unseen = [i \in XS |-> 0] /\ stalled = [i \in XS |-> FALSE]
   /\ reqRecs = [i \in XS |-> 0] /\ respRecs = [i \in XS |-> 0]
   /\ reqBlock = [i \in XS |-> <<>>] /\ respBlock = [i \in XS |-> <<>>]
   /\ linked = [i \in XS |-> FALSE]
   /\ warcDone = TRUE
 
-Init == \E ms \in [XS -> MsgSet] : InitWith(ms)
+Init == \E b1 \in Choices : \E t1 \in TruncChoices(b1) : \E s1 \in CloseChoices(b1, t1) :
+          IF NX = 1 THEN InitWith(<<Mk(b1, t1, s1)>>)
+          ELSE \E b2 \in Choices : \E t2 \in TruncChoices(b2) : \E s2 \in CloseChoices(b2, t2) :
+                 InitWith(<<Mk(b1, t1, s1), Mk(b2, t2, s2)>>)
 
 Notify(d)  == recorded' = [recorded EXCEPT ![x] = @ \o d]
 Deliver(d) == delivered' = [delivered EXCEPT ![x] = @ \o d]
 Raise(kind) == pc' = "raise" /\ err' = kind
-UnchObs(S) == UNCHANGED S
 
-\* ---- Session.start: (re)connect when needed, write the request; the server answers
-\* Stream.reconnect(): connection.closed() = no reader/writer, or the reader is at EOF with an empty buffer
+\* ---- Session.start: (re)connect when needed, write the request; the server answers.
+\* Stream.reconnect() / the pool's clean(): connection.closed() = no reader/writer, or the reader is at EOF
+\* with an empty buffer.  (The FIN travels right behind the last data.)
+Fresh   == ~copen \/ (eof /\ buf = <<>> /\ net = <<>>)
+Answers == Fresh \/ ~eof          \* a server that has closed does not answer
 Start ==
   /\ pc = "start"
-  /\ LET fresh == ~copen \/ (eof /\ rest = <<>>)
-         m == msgs[x]
-         answers == fresh \/ ~eof          \* a server that has closed does not answer
-     IN /\ copen' = TRUE
-        /\ rest' = (IF fresh THEN <<>> ELSE rest) \o (IF answers THEN Sent(m) ELSE <<>>)
-        /\ eof' = IF answers THEN (m.trunc # NoTrunc \/ m.sclose) ELSE eof
+  /\ LET m == msgs[x] IN
+        /\ copen' = TRUE
+        /\ buf' = IF Fresh THEN <<>> ELSE buf
+        /\ net' = (IF Fresh THEN <<>> ELSE net) \o (IF Answers THEN Sent(m) ELSE <<>>)
+        /\ eof' = IF Answers THEN (m.trunc # NoTrunc \/ m.sclose) ELSE eof
   /\ reqRecorded' = [reqRecorded EXCEPT ![x] = ReqTok(x)]
   /\ reqSent' = [reqSent EXCEPT ![x] = ReqTok(x)]
   /\ reqRecs' = [reqRecs EXCEPT ![x] = @ + 1]
   /\ reqBlock' = [reqBlock EXCEPT ![x] = ReqTok(x)]
   /\ pc' = "hdr" /\ hdr' = <<>> /\ tr' = <<>> /\ bleft' = 0
-  /\ UNCHANGED <<msgs, x, err, delivered, recorded, outcome, connClosed, leftover, stalled,
+  /\ UNCHANGED <<msgs, ref, x, err, delivered, recorded, outcome, connClosed, leftover, unseen, stalled,
                  respRecs, respBlock, linked, warcDone>>
+
+\* ---- the two read primitives (asyncio.StreamReader semantics)
+All == buf \o net
+\* readline(): through the first LF; feeds arrive until the LF is in the buffer, the last one may bring more
+LineReady == LFIndex(All) > 0 \/ eof
+\* j: how much of All is in the buffer once the line is complete
+LineExtents == IF LFIndex(buf) > 0 THEN {Len(buf)}
+               ELSE IF LFIndex(All) > 0 THEN LFIndex(All)..Len(All)
+               ELSE {Len(All)}
+TheLine == IF LFIndex(All) > 0 THEN SubSeq(All, 1, LFIndex(All)) ELSE All
+TakeLine(j) == LET i == IF LFIndex(All) > 0 THEN LFIndex(All) ELSE Len(All) IN
+               /\ buf' = SubSeq(All, i + 1, j)
+               /\ net' = SubSeq(All, j + 1, Len(All))
+\* read(n): what is buffered (up to n); with an empty buffer one piece of k octets arrives first
+PieceChoices == IF buf # <<>> THEN {0} ELSE 1..Len(net)
+Avail(k) == IF buf # <<>> THEN buf ELSE SubSeq(net, 1, k)
+TakeBytes(n, k) == /\ buf' = Drop(Avail(k), n)
+                   /\ net' = IF buf # <<>> THEN net ELSE SubSeq(net, k + 1, Len(net))
+AtEOF == buf = <<>> /\ net = <<>> /\ eof
+ReadSize == 4096      \* Stream._read_size, ChunkedTransferReader._read_size
 
 \* ---- a read blocks although the server has nothing more to send: the server's idle timeout closes
 NeedsLine  == pc \in {"hdr", "ch_hdr", "ch_nl", "trailer"}
 NeedsBytes == pc \in {"len", "ch_body", "close"} /\ ~(pc = "len" /\ bleft = 0)
 Stall ==
   /\ ~eof
-  /\ (NeedsLine /\ LFIndex(rest) = 0) \/ (NeedsBytes /\ rest = <<>>)
+  /\ (NeedsLine /\ LFIndex(All) = 0) \/ (NeedsBytes /\ All = <<>>)
   /\ eof' = TRUE
   /\ stalled' = [stalled EXCEPT ![x] = TRUE]
-  /\ UNCHANGED <<msgs, x, pc, rest, copen, hdr, bleft, tr, err, delivered, recorded, reqRecorded, reqSent,
-                 outcome, connClosed, leftover, reqRecs, respRecs, reqBlock, respBlock, linked, warcDone>>
+  /\ UNCHANGED <<msgs, ref, x, pc, buf, net, copen, hdr, bleft, tr, err, delivered, recorded, reqRecorded, reqSent,
+                 outcome, connClosed, leftover, unseen, reqRecs, respRecs, reqBlock, respBlock, linked, warcDone>>
 
-\* Connection.readline(): through the first LF, or everything up to EOF
-LineReady == LFIndex(rest) > 0 \/ eof
-TheLine == IF LFIndex(rest) > 0 THEN SubSeq(rest, 1, LFIndex(rest)) ELSE rest
-AfterLine == IF LFIndex(rest) > 0 THEN SubSeq(rest, LFIndex(rest) + 1, Len(rest)) ELSE <<>>
 EndsLF(l) == l # <<>> /\ l[Len(l)] = LF
 White(c) == c \in {CR, LF, 32, 9}
 Blank(l) == \A i \in 1..Len(l) : White(l[i])
@@ -234,8 +257,8 @@ Strategy ==
 \* ---- Stream.read_response: one header line
 HdrLine ==
   /\ pc = "hdr" /\ LineReady
+  /\ \E j \in LineExtents : TakeLine(j)
   /\ LET l == TheLine IN
-     /\ rest' = AfterLine
      /\ Notify(l)
      /\ IF ~EndsLF(l) THEN Raise("network_error") /\ UNCHANGED hdr                   \* 'Connection closed.'
         ELSE IF l \in {<<CR, LF>>, <<LF>>}
@@ -246,8 +269,8 @@ HdrLine ==
                        THEN pc' = "hdr" /\ hdr' = <<>> /\ UNCHANGED err                \* skip the interim response
                        ELSE pc' = "body" /\ UNCHANGED <<hdr, err>>
         ELSE pc' = "hdr" /\ hdr' = Append(hdr, l[1]) /\ UNCHANGED err
-  /\ UNCHANGED <<msgs, x, eof, copen, bleft, tr, delivered, reqRecorded, reqSent, outcome, connClosed, leftover,
-                 stalled, reqRecs, respRecs, reqBlock, respBlock, linked, warcDone>>
+  /\ UNCHANGED <<msgs, ref, x, eof, copen, bleft, tr, delivered, reqRecorded, reqSent, outcome, connClosed, leftover,
+                 unseen, stalled, reqRecs, respRecs, reqBlock, respBlock, linked, warcDone>>
 
 \* ---- Stream.read_body: choose how to read
 Body ==
@@ -261,41 +284,42 @@ Body ==
                     ELSE pc' = "close" /\ UNCHANGED <<bleft, err>>               \* warning, then read until close
                ELSE pc' = "len" /\ bleft' = FieldVal(KCL) /\ UNCHANGED err
      ELSE pc' = "close" /\ UNCHANGED <<bleft, err>>
-  /\ UNCHANGED <<msgs, x, rest, eof, copen, hdr, tr, obsvars, warcDone>>
+  /\ UNCHANGED <<msgs, ref, x, buf, net, eof, copen, hdr, tr, obsvars, warcDone>>
 
-\* ---- _read_body_by_length: one connection.read(4096)
+\* ---- _read_body_by_length: one connection.read(4096) 
 LenDone ==
   /\ pc = "len" /\ bleft = 0
   /\ pc' = "fin"
-  /\ UNCHANGED <<msgs, x, rest, eof, copen, hdr, bleft, tr, err, obsvars, warcDone>>
+  /\ UNCHANGED <<msgs, ref, x, buf, net, eof, copen, hdr, bleft, tr, err, obsvars, warcDone>>
 
 LenRead ==
   /\ pc = "len" /\ bleft > 0
-  /\ \/ /\ rest = <<>> /\ eof                                      \* EOF before n bytes: 'Connection closed.'
+  /\ \/ /\ AtEOF                                                   \* EOF before n bytes: 'Connection closed.'
         /\ Raise("network_error")
-        /\ UNCHANGED <<rest, copen, bleft, delivered, recorded>>
-     \/ \E k \in 1..Len(rest) :
-          LET got == SubSeq(rest, 1, k)
-              data == IF k > bleft THEN SubSeq(got, 1, bleft) ELSE got IN
-          /\ rest' = SubSeq(rest, k + 1, Len(rest))
-          /\ bleft' = IF k > bleft THEN 0 ELSE bleft - k
-          /\ copen' = IF k > bleft THEN FALSE ELSE copen           \* content overrun: cut and close
+        /\ UNCHANGED <<buf, net, copen, bleft, delivered, recorded>>
+     \/ \E k \in PieceChoices :
+          LET got == Prefix(Avail(k), ReadSize)
+              n == Len(got)
+              data == IF n > bleft THEN SubSeq(got, 1, bleft) ELSE got IN
+          /\ TakeBytes(ReadSize, k)
+          /\ bleft' = IF n > bleft THEN 0 ELSE bleft - n
+          /\ copen' = IF n > bleft THEN FALSE ELSE copen           \* content overrun: cut and close
           /\ Notify(data) /\ Deliver(data)
           /\ UNCHANGED <<pc, err>>
-  /\ UNCHANGED <<msgs, x, eof, hdr, tr, reqRecorded, reqSent, outcome, connClosed, leftover, stalled,
+  /\ UNCHANGED <<msgs, ref, x, eof, hdr, tr, reqRecorded, reqSent, outcome, connClosed, leftover, unseen, stalled,
                  reqRecs, respRecs, reqBlock, respBlock, linked, warcDone>>
 
 \* ---- _read_body_until_close
 CloseRead ==
   /\ pc = "close"
-  /\ \/ /\ rest = <<>> /\ eof
-        /\ pc' = "fin" /\ UNCHANGED <<rest, delivered, recorded>>
-     \/ \E k \in 1..Len(rest) :
-          /\ rest' = SubSeq(rest, k + 1, Len(rest))
-          /\ Notify(SubSeq(rest, 1, k)) /\ Deliver(SubSeq(rest, 1, k))
+  /\ \/ /\ AtEOF
+        /\ pc' = "fin" /\ UNCHANGED <<buf, net, delivered, recorded>>
+     \/ \E k \in PieceChoices :
+          /\ TakeBytes(ReadSize, k)
+          /\ Notify(Prefix(Avail(k), ReadSize)) /\ Deliver(Prefix(Avail(k), ReadSize))
           /\ UNCHANGED pc
-  /\ UNCHANGED <<msgs, x, eof, copen, hdr, bleft, tr, err, reqRecorded, reqSent, outcome, connClosed, leftover,
-                 stalled, reqRecs, respRecs, reqBlock, respBlock, linked, warcDone>>
+  /\ UNCHANGED <<msgs, ref, x, eof, copen, hdr, bleft, tr, err, reqRecorded, reqSent, outcome, connClosed, leftover,
+                 unseen, stalled, reqRecs, respRecs, reqBlock, respBlock, linked, warcDone>>
 
 \* ---- ChunkedTransferReader.read_chunk_header
 IsHex(c) == c \in 48..57 \/ c \in 97..102 \/ c \in 65..70
@@ -308,41 +332,42 @@ SizeField(l) == LET S == {i \in 1..Len(l) : l[i] = 59}
 
 ChHdr ==
   /\ pc = "ch_hdr" /\ LineReady
+  /\ \E j \in LineExtents : TakeLine(j)
   /\ LET l == TheLine
          f == SizeField(l) IN
-     /\ rest' = AfterLine
-     /\ IF ~EndsLF(l) THEN Raise("network_error") /\ UNCHANGED <<bleft, recorded>>
-        ELSE IF f = <<>> \/ \E i \in 1..Len(f) : ~IsHex(f[i])
-        THEN Raise("protocol_error") /\ UNCHANGED <<bleft, recorded>>                  \* 'Invalid chunk size'
-        ELSE /\ Notify(l)
-             /\ bleft' = HexVal(f, 0)
-             /\ pc' = IF HexVal(f, 0) = 0 THEN "trailer" ELSE "ch_body"
-             /\ UNCHANGED err
-  /\ UNCHANGED <<msgs, x, eof, copen, hdr, tr, delivered, reqRecorded, reqSent, outcome, connClosed, leftover,
-                 stalled, reqRecs, respRecs, reqBlock, respBlock, linked, warcDone>>
+     IF ~EndsLF(l) THEN Raise("network_error") /\ UNCHANGED <<bleft, recorded>>
+     ELSE IF f = <<>> \/ \E i \in 1..Len(f) : ~IsHex(f[i])
+     THEN Raise("protocol_error") /\ UNCHANGED <<bleft, recorded>>                  \* 'Invalid chunk size'
+     ELSE /\ Notify(l)
+          /\ bleft' = HexVal(f, 0)
+          /\ pc' = IF HexVal(f, 0) = 0 THEN "trailer" ELSE "ch_body"
+          /\ UNCHANGED err
+  /\ UNCHANGED <<msgs, ref, x, eof, copen, hdr, tr, delivered, reqRecorded, reqSent, outcome, connClosed, leftover,
+                 unseen, stalled, reqRecs, respRecs, reqBlock, respBlock, linked, warcDone>>
 
 \* ---- read_chunk_body, bytes_left > 0: connection.read(min(bytes_left, 4096))
 ChBody ==
   /\ pc = "ch_body"
-  /\ \/ /\ rest = <<>> /\ eof                  \* empty read: "chunk finished" -> the next header read hits EOF
-        /\ pc' = "ch_hdr" /\ UNCHANGED <<rest, bleft, delivered, recorded>>
-     \/ \E k \in 1..Min(bleft, Len(rest)) :
-          /\ rest' = SubSeq(rest, k + 1, Len(rest))
-          /\ bleft' = bleft - k
-          /\ Notify(SubSeq(rest, 1, k)) /\ Deliver(SubSeq(rest, 1, k))
-          /\ pc' = IF bleft - k = 0 THEN "ch_nl" ELSE "ch_body"
-  /\ UNCHANGED <<msgs, x, eof, copen, hdr, tr, err, reqRecorded, reqSent, outcome, connClosed, leftover,
-                 stalled, reqRecs, respRecs, reqBlock, respBlock, linked, warcDone>>
+  /\ \/ /\ AtEOF                               \* empty read: "chunk finished" -> the next header read hits EOF
+        /\ pc' = "ch_hdr" /\ UNCHANGED <<buf, net, bleft, delivered, recorded>>
+     \/ \E k \in PieceChoices :
+          LET data == Prefix(Avail(k), Min(bleft, ReadSize)) IN
+          /\ TakeBytes(Min(bleft, ReadSize), k)
+          /\ bleft' = bleft - Len(data)
+          /\ Notify(data) /\ Deliver(data)
+          /\ pc' = IF bleft - Len(data) = 0 THEN "ch_nl" ELSE "ch_body"
+  /\ UNCHANGED <<msgs, ref, x, eof, copen, hdr, tr, err, reqRecorded, reqSent, outcome, connClosed, leftover,
+                 unseen, stalled, reqRecs, respRecs, reqBlock, respBlock, linked, warcDone>>
 
 \* ---- read_chunk_body, bytes_left = 0: the line end after the chunk data
 ChNl ==
   /\ pc = "ch_nl" /\ LineReady
+  /\ \E j \in LineExtents : TakeLine(j)
   /\ LET l == TheLine IN
-     /\ rest' = AfterLine
-     /\ IF Len(l) > 2 THEN Raise("protocol_error") /\ UNCHANGED recorded          \* 'Error reading newline after chunk.'
-        ELSE Notify(l) /\ pc' = "ch_hdr" /\ UNCHANGED err
-  /\ UNCHANGED <<msgs, x, eof, copen, hdr, bleft, tr, delivered, reqRecorded, reqSent, outcome, connClosed,
-                 leftover, stalled, reqRecs, respRecs, reqBlock, respBlock, linked, warcDone>>
+     IF Len(l) > 2 THEN Raise("protocol_error") /\ UNCHANGED recorded          \* 'Error reading newline after chunk.'
+     ELSE Notify(l) /\ pc' = "ch_hdr" /\ UNCHANGED err
+  /\ UNCHANGED <<msgs, ref, x, eof, copen, hdr, bleft, tr, delivered, reqRecorded, reqSent, outcome, connClosed,
+                 leftover, unseen, stalled, reqRecs, respRecs, reqBlock, respBlock, linked, warcDone>>
 
 \* ---- read_trailer: lines until a blank one - or EOF (readline returns b'' there: finding 11);
 \*      then response.fields.parse(trailer) in strict mode: a line without a colon raises ValueError
@@ -356,15 +381,15 @@ BadTrailer(s) ==
 
 Trailer ==
   /\ pc = "trailer" /\ LineReady
+  /\ \E j \in LineExtents : TakeLine(j)
   /\ LET l == TheLine
          t == tr \o l IN
-     /\ rest' = AfterLine
-     /\ IF Blank(l)
-        THEN /\ Notify(t) /\ tr' = <<>>
-             /\ IF BadTrailer(t) THEN Raise("other_error") ELSE pc' = "fin" /\ UNCHANGED err
-        ELSE tr' = t /\ UNCHANGED <<pc, err, recorded>>
-  /\ UNCHANGED <<msgs, x, eof, copen, hdr, bleft, delivered, reqRecorded, reqSent, outcome, connClosed,
-                 leftover, stalled, reqRecs, respRecs, reqBlock, respBlock, linked, warcDone>>
+     IF Blank(l)
+     THEN /\ Notify(t) /\ tr' = <<>>
+          /\ IF BadTrailer(t) THEN Raise("other_error") ELSE pc' = "fin" /\ UNCHANGED err
+     ELSE tr' = t /\ UNCHANGED <<pc, err, recorded>>
+  /\ UNCHANGED <<msgs, ref, x, eof, copen, hdr, bleft, delivered, reqRecorded, reqSent, outcome, connClosed,
+                 leftover, unseen, stalled, reqRecs, respRecs, reqBlock, respBlock, linked, warcDone>>
 
 \* ---- end of read_body (should_close: the request is HTTP/1.1, so only "Connection: close" closes),
 \*      Session.download: end_response -> the recorder writes the response record
@@ -372,13 +397,14 @@ Complete(closeNow) ==
   /\ copen' = (copen /\ ~closeNow)
   /\ outcome' = [outcome EXCEPT ![x] = "ok"]
   /\ connClosed' = [connClosed EXCEPT ![x] = ~copen']
-  /\ leftover' = [leftover EXCEPT ![x] = Len(rest)]
+  /\ leftover' = [leftover EXCEPT ![x] = Len(buf)]
+  /\ unseen' = [unseen EXCEPT ![x] = Len(net)]
   /\ respRecs' = [respRecs EXCEPT ![x] = @ + 1]
   /\ respBlock' = [respBlock EXCEPT ![x] = recorded[x]]
   /\ linked' = [linked EXCEPT ![x] = TRUE]
   /\ x' = IF x < NX THEN x + 1 ELSE x
   /\ pc' = IF x < NX THEN "start" ELSE "done"
-  /\ UNCHANGED <<msgs, rest, eof, hdr, bleft, tr, err, delivered, recorded, reqRecorded, reqSent, stalled,
+  /\ UNCHANGED <<msgs, ref, buf, net, eof, hdr, bleft, tr, err, delivered, recorded, reqRecorded, reqSent, stalled,
                  reqRecs, reqBlock, warcDone>>
 
 Fin   == pc = "fin" /\ Complete(FieldVal(KConn) = 1)
@@ -390,11 +416,12 @@ RaiseErr ==
   /\ copen' = FALSE
   /\ outcome' = [outcome EXCEPT ![x] = err]
   /\ connClosed' = [connClosed EXCEPT ![x] = TRUE]
-  /\ leftover' = [leftover EXCEPT ![x] = Len(rest)]
+  /\ leftover' = [leftover EXCEPT ![x] = Len(buf)]
+  /\ unseen' = [unseen EXCEPT ![x] = Len(net)]
   /\ x' = IF x < NX THEN x + 1 ELSE x
   /\ pc' = IF x < NX THEN "start" ELSE "done"
   /\ err' = "none"
-  /\ UNCHANGED <<msgs, rest, eof, hdr, bleft, tr, delivered, recorded, reqRecorded, reqSent, stalled,
+  /\ UNCHANGED <<msgs, ref, buf, net, eof, hdr, bleft, tr, delivered, recorded, reqRecorded, reqSent, stalled,
                  reqRecs, respRecs, reqBlock, respBlock, linked, warcDone>>
 
 Next == Start \/ Stall \/ HdrLine \/ Body \/ LenDone \/ LenRead \/ CloseRead \/ ChHdr \/ ChBody \/ ChNl
@@ -407,29 +434,29 @@ Terminal == pc = "done"
 Terminates == <>Terminal
 NoStuck == (~ENABLED Next) => Terminal
 
-(* Known deviations of the unchanged tree (DESIGN 3.4 / 6): the design check passes with exactly these.  *)
-(* A message is in a deviating class when ...                                                             *)
-DevTE(m)     == ~FixTE /\ m.te # <<>> /\ ~Bodyless(m) /\ \E i \in 1..Len(m.head) :
+(* Known deviations of the unchanged tree (DESIGN 3.4 / 6): the design check passes with exactly these   *)
+(* classes of messages exempted.                                                                          *)
+DevTE(m)     == ~FixTE /\ m.te # <<>> /\ \E i \in 1..Len(m.head) :
                     IsTok(m.head[i]) /\ TokKind(m.head[i]) = KTE /\ TokVal(m.head[i]) \in {2, 3}       \* 9
 DevNoBody(m) == ~FixNoBody /\ Bodyless(m) /\ (m.hascl \/ m.te # <<>>)                                   \* 10
 Dev1xx(m)    == ~Fix1xx /\ m.ihead # <<>>                                                                \* 23
 DevBadCL(m)  == ~FixBadCL /\ RefFraming(m) = "invalid"
-\* exchange x is affected by a deviation of its own message, or by the desynchronisation an earlier one left
+\* Content-Length: 0 followed by surplus octets: no read is made, so the surplus is never seen and the
+\* connection is kept with it
+DevSurplus0(m) == RefFraming(m) = "length" /\ m.clv = 0 /\ m.raw # <<>>
+\* exchange i is affected by a deviation of its own message, or by the desynchronisation an earlier one left
 Dev(i) == \E j \in 1..i : DevTE(msgs[j]) \/ DevNoBody(msgs[j]) \/ Dev1xx(msgs[j]) \/ DevBadCL(msgs[j])
+                           \/ DevSurplus0(msgs[j])
 
-\* the reference holds a message to be complete when the last-chunk line has arrived; wpull's strict
-\* trailer parse may still raise on a trailer cut inside a field name (outcome other_error): not a deviation,
-\* CompleteIsOk only speaks about strictly complete messages.
-D_Payload      == \A i \in XS : Dev(i) \/ (Ok(i) => delivered[i] = Expected(msgs[i]))
-D_TruncIsError == \A i \in XS : Dev(i) \/ (Ok(i) => RefComplete(msgs[i]))
-D_CompleteIsOk == \A i \in XS : Dev(i) \/ ((Done(i) /\ RefCompleteStrict(msgs[i])) => Ok(i))
-D_NoOverRead   == \A i \in XS : Dev(i) \/ (stalled[i] => RefFraming(msgs[i]) = "close")
+D_Payload      == \A i \in XS : Dev(i) \/ (Ok(i) => delivered[i] = ref[i].expected)
+D_TruncIsError == \A i \in XS : Dev(i) \/ (Ok(i) => ref[i].complete)
+D_CompleteIsOk == \A i \in XS : Dev(i) \/ ((Done(i) /\ ref[i].completeS) => Ok(i))
+D_NoOverRead   == \A i \in XS : Dev(i) \/ (stalled[i] => ref[i].framing = "close")
 D_Persist      == \A i \in XS : Dev(i) \/ ((Ok(i) /\ ~connClosed[i]) => leftover[i] = 0)
 D_RespBytes    == \A i \in XS : Dev(i) \/ (Ok(i) => RespOK(i, recorded[i]))
 D_RecBlocks    == \A i \in XS : Dev(i) \/ ((Ok(i) /\ reqRecs[i] = 1 /\ respRecs[i] = 1)
                                             => (RespOK(i, respBlock[i]) /\ reqBlock[i] = reqSent[i]))
 
-\* every deviation class really deviates somewhere (checked as "must be violated" at development time)
 TypeOK ==
   /\ x \in XS
   /\ pc \in {"start", "hdr", "body", "len", "close", "ch_hdr", "ch_body", "ch_nl", "trailer", "fin", "finnb",
